@@ -98,6 +98,11 @@ func runC15(t *fw.T) {
 			kinds[k.name] = true
 			return k.mk(r, serial)
 		}}
+	// a quarter of the sources has long runs of comments and blank lines in some gaps (licence headers, boxed comments)
+	if r.IntN(4) == 0 {
+		lay.LongDecor = true
+		t.Count("sources_with_long_comment_runs", 1)
+	}
 	// a third of the sources ends directly behind its last token (no trailing line break)
 	if r.IntN(3) == 0 {
 		lay.NoTrailingNL = true
